@@ -90,6 +90,9 @@ pub struct HistCfg {
     pub harvest_edges: bool,
     /// fault enumeration: only execute (do not observe or check) the scripted operations before this index
     pub check_from: usize,
+    /// listed findings (property, signature pattern): a violation of ANOTHER property ends the history only if it is a
+    /// listed finding; an unlisted one is a new defect, and what follows from it concerns this property as well
+    pub known: std::sync::Arc<Vec<(String, String)>>,
 }
 
 #[derive(Clone, Debug, Default)]
@@ -1139,9 +1142,13 @@ pub fn run_history(cfg: &HistCfg) -> HistResult {
         // violations of properties this check does not decide end the history silently: the state is no longer one
         // the property speaks about, and what follows would only be a consequence (their own checks report them)
         let (own, foreign): (Vec<Violation>, Vec<Violation>) = viols.into_iter().partition(|v| cfg.props.wants(&v.prop));
-        if !foreign.is_empty() {
-            *res.probes.entry("history-ended-by-violation-of-another-property".into()).or_default() += 1;
+        let foreign_listed = foreign.iter().any(|v| cfg.known.iter().any(|(p, g)| *p == v.prop && crate::check::glob_match(g, &v.sig)));
+        if foreign_listed {
+            *res.probes.entry("history-ended-by-listed-finding-of-another-property".into()).or_default() += 1;
+        } else if !foreign.is_empty() {
+            *res.probes.entry("history-continued-after-unlisted-violation-of-another-property".into()).or_default() += 1;
         }
+        let foreign: Vec<Violation> = if foreign_listed { foreign } else { Vec::new() };
         let mut viols = own;
         for v in viols.iter_mut() {
             // signatures and details are plain text (corrupted buffers may put control characters into names)
